@@ -1542,7 +1542,10 @@ def flat_index_roundtrip(check, prog):
                 isinstance(t[2][1], str) and 'flat' in t[2][1]:
             return True
         return None
-    it = Interp(prog, max_depth=0, decide=decide_r)
+    # (helpers of the result module are followed: the reader may hand the
+    # rebuilding of the index to a private function)
+    it = Interp(prog, max_depth=1, decide=decide_r, opaque=[
+        q0 for q0 in ('holopy.core.io.io.unpack_attrs', 'holopy.core.io.io.pack_attrs')])
     res = it.analyze(q)
     mi = [c for c in it.calls if c['name'].endswith('MultiIndex')]
     ok = len(mi) == 1 and len(mi[0]['args']) >= 2
